@@ -228,12 +228,20 @@ def kani_prepare(repo=None):
     fcntl.flock(lock, fcntl.LOCK_EX)
     try:
         # drop stale scratch copies (disk is limited)
-        for x in os.listdir(WORK):
-            if x.startswith("kani-") and x != "kani-" + hh:
-                shutil.rmtree(os.path.join(WORK, x), ignore_errors=True)
-        if not os.path.exists(os.path.join(sc, ".prepared")):
+        stale = [x for x in os.listdir(WORK) if x.startswith("kani-") and x != "kani-" + hh]
+        fresh = not os.path.exists(os.path.join(sc, ".prepared"))
+        if fresh:
             shutil.rmtree(sc, ignore_errors=True)
             os.makedirs(sc)
+            # keep the compiled dependencies of a stale scratch copy (same Cargo.lock): cargo decides
+            # by fingerprint what to rebuild, so this only saves time
+            for x in stale:
+                t = os.path.join(WORK, x, "target")
+                if os.path.isdir(t) and not os.path.exists(os.path.join(sc, "target")):
+                    os.rename(t, os.path.join(sc, "target"))
+        for x in stale:
+            shutil.rmtree(os.path.join(WORK, x), ignore_errors=True)
+        if fresh:
             rc, o, e, _ = sh(["rsync", "-a", "--exclude", "target", "--exclude", ".git", "--exclude", "fuzz",
                               "--exclude", "assets", "--exclude", "bindings", "--exclude", "docs",
                               repo.rstrip("/") + "/", sc + "/"])
@@ -341,12 +349,16 @@ def run_kani(harnesses, package=None, flags=None, timeout=600, jobs=8, repo=None
     prepared = json.load(open(os.path.join(sc, ".prepared")))
     cmd = ["cargo", "kani", "--output-format", "terse", "-j", str(jobs), "--harness-timeout", f"{timeout}s",
            "-Z", "function-contracts", "-Z", "stubbing", "-Z", "mem-predicates", "-Z", "unstable-options"]
+    cwd = sc
     if package:
-        cmd += ["-p", package]
+        # sonic-simd / sonic-number are path dependencies, not workspace members: run in their directory
+        cwd = os.path.join(sc, package)
+        if not os.path.exists(os.path.join(cwd, "Cargo.lock")):
+            shutil.copy(os.path.join(sc, "Cargo.lock"), os.path.join(cwd, "Cargo.lock"))
     cmd += flags or []
     for h in harnesses:
         cmd += ["--harness", h]
-    rc, out, err, dt = sh(cmd, cwd=sc, timeout=timeout * (1 + len(harnesses) // max(jobs, 1)) + 900)
+    rc, out, err, dt = sh(cmd, cwd=cwd, timeout=timeout * (1 + len(harnesses) // max(jobs, 1)) + 900)
     parsed = parse_kani(out + "\n" + err)
     results = {}
     for h in harnesses:
@@ -369,10 +381,8 @@ def kani_playback(harness, package=None, flags=None, repo=None, timeout=600):
     sc = kani_prepare(repo)
     cmd = ["cargo", "kani", "--harness", harness, "-Z", "concrete-playback", "--concrete-playback=print",
            "-Z", "function-contracts", "-Z", "stubbing", "-Z", "mem-predicates", "--harness-timeout", f"{timeout}s"]
-    if package:
-        cmd += ["-p", package]
     cmd += flags or []
-    rc, out, err, dt = sh(cmd, cwd=sc, timeout=timeout + 600)
+    rc, out, err, dt = sh(cmd, cwd=os.path.join(sc, package) if package else sc, timeout=timeout + 600)
     m = re.search(r"(#\[test\]\nfn kani_concrete_playback_\w+\(\) \{.*?\n\})", out, re.S)
     return {"test": m.group(1) if m else None, "out_tail": out[-6000:]}
 
